@@ -255,7 +255,7 @@ func opsFor(d *coll.Desc, nk, nv int, only map[string]bool) []coll.Op {
 func prefills(d *coll.Desc) [][]coll.Op {
 	var k0, k1 reflect.Value
 	if d.KeyT != nil {
-		ks := coll.KeysNZ(d.KeyT, 2)
+		ks := coll.KeysNZ(d, 2)
 		k0, k1 = ks[0], ks[1]
 	}
 	switch d.Family {
